@@ -31,8 +31,8 @@ def showPts2 (l : List (List (List Rat))) : String := if l.isEmpty then "-" else
 def showOptList (l : List (Option Rat)) : String :=
   ",".intercalate (l.map (fun o => match o with | some r => showRat r | none => "None"))
 
-/-- list as total function, zero padded (knot vectors) -/
-def fn (l : List Rat) : Nat → Rat := let a := l.toArray; fun i => a.getD i 0
+/-- list as total function, padded with its last value (knot vectors; same function as `Geomdl.fnOf`) -/
+def fn (l : List Rat) : Nat → Rat := let a := l.toArray; let z := l.getLastD 0; fun i => a.getD i z
 
 /- the tolerance literals of the code, as the exact values of the doubles Python uses -/
 def tolSpan : Rat := mkRat 5902958103587057 590295810358705651712        -- the double 10e-6
